@@ -23,6 +23,7 @@
  *   <seq|-> <op> <fd> <path|-> <requested> <returned> <errno> <inj|real>
  */
 #define _GNU_SOURCE
+#include <dlfcn.h>
 #include <errno.h>
 #include <fcntl.h>
 #include <stdarg.h>
@@ -31,6 +32,8 @@
 #include <stdlib.h>
 #include <string.h>
 #include <sys/resource.h>
+#include <sys/stat.h>
+#include <limits.h>
 #include <sys/syscall.h>
 #include <sys/types.h>
 #include <sys/uio.h>
@@ -67,7 +70,7 @@ static long raw(long n, long a, long b, long c, long d) { return syscall(n, a, b
 static int errno_by_name(const char *s, size_t n) {
 #define E(x) if (n == sizeof(#x) - 1 && !memcmp(s, #x, n)) return x;
     E(EIO) E(ENOSPC) E(EACCES) E(ENOENT) E(EISDIR) E(EMFILE) E(ESPIPE) E(EINTR) E(EROFS) E(EDQUOT)
-    E(ENOTDIR) E(EEXIST) E(EFBIG) E(ENOMEM) E(EAGAIN) E(EINVAL) E(EBADF)
+    E(ELOOP) E(ENAMETOOLONG) E(ENOTDIR) E(EEXIST) E(EFBIG) E(ENOMEM) E(EAGAIN) E(EINVAL) E(EBADF)
 #undef E
     return 0;
 }
@@ -85,6 +88,7 @@ static void parse_plan(const char *p) {
                 r->seq = seq; r->err = 0; r->short_n = -1; r->used = 0;
                 size_t rem = n - (size_t)(q - p);
                 if (rem > 6 && !memcmp(q, "short=", 6)) r->short_n = strtol(q + 6, NULL, 10);
+                else if (rem == 4 && !memcmp(q, "zero", 4)) r->short_n = 0;
                 else r->err = errno_by_name(q, rem);
                 if (r->err || r->short_n >= 0) g_nrules++;
             }
@@ -287,6 +291,7 @@ ssize_t write(int fd, const void *buf, size_t count) {
     if (r) {
         r->used = 1;
         if (r->err) { logev(seq, "write", fd, g_paths[fd], (long)count, -1, r->err, 1); errno = r->err; return -1; }
+        if (r->short_n == 0 && count > 0) { logev(seq, "write", fd, g_paths[fd], (long)count, 0, 0, 1); return 0; } /* the device accepts nothing */
         if (r->short_n >= 0 && (size_t)r->short_n < n && r->short_n > 0) { n = (size_t)r->short_n; inj = 1; }
     }
     if (g_wchunk > 0 && (size_t)g_wchunk < n) { n = (size_t)g_wchunk; inj = 1; }
@@ -362,6 +367,113 @@ int mkdir(const char *path, mode_t mode) {
     int ret = (int)raw(SYS_mkdirat, AT_FDCWD, (long)path, mode, 0);
     int e = errno;
     logev(seq, "mkdir", -1, rel, mode, ret, ret < 0 ? e : 0, 0);
+    errno = e;
+    return ret;
+}
+
+/* ------------------------------------------------ metadata calls: stat family, realpath, readlink, getcwd
+ * Counted and logged like the I/O calls; the only fault is a one-shot errno ("at=SEQ:ERRNO").      */
+
+static int meta_fault(const char *op, const char *rel, long *seq_out) {
+    long seq = g_seq++;
+    *seq_out = seq;
+    struct rule *r = rule_at(seq);
+    if (r) {
+        r->used = 1;
+        if (r->err && r->err != EINTR) { logev(seq, op, -1, rel, 0, -1, r->err, 1); errno = r->err; return 1; }
+    }
+    return 0;
+}
+
+int stat64(const char *path, struct stat64 *st) {
+    const char *rel = sandbox_rel(path);
+    if (!rel) return (int)raw(SYS_newfstatat, AT_FDCWD, (long)path, (long)st, 0);
+    long seq;
+    if (meta_fault("stat", rel, &seq)) return -1;
+    int ret = (int)raw(SYS_newfstatat, AT_FDCWD, (long)path, (long)st, 0);
+    int e = errno;
+    logev(seq, "stat", -1, rel, 0, ret, ret < 0 ? e : 0, 0);
+    errno = e;
+    return ret;
+}
+int stat(const char *path, struct stat *st) { return stat64(path, (struct stat64 *)st); }
+
+int lstat64(const char *path, struct stat64 *st) {
+    const char *rel = sandbox_rel(path);
+    if (!rel) return (int)raw(SYS_newfstatat, AT_FDCWD, (long)path, (long)st, AT_SYMLINK_NOFOLLOW);
+    long seq;
+    if (meta_fault("lstat", rel, &seq)) return -1;
+    int ret = (int)raw(SYS_newfstatat, AT_FDCWD, (long)path, (long)st, AT_SYMLINK_NOFOLLOW);
+    int e = errno;
+    logev(seq, "lstat", -1, rel, 0, ret, ret < 0 ? e : 0, 0);
+    errno = e;
+    return ret;
+}
+int lstat(const char *path, struct stat *st) { return lstat64(path, (struct stat64 *)st); }
+
+int fstat64(int fd, struct stat64 *st) {
+    if (!is_tracked(fd)) return (int)raw(SYS_fstat, fd, (long)st, 0, 0);
+    long seq;
+    if (meta_fault("fstat", g_paths[fd], &seq)) return -1;
+    int ret = (int)raw(SYS_fstat, fd, (long)st, 0, 0);
+    int e = errno;
+    logev(seq, "fstat", fd, g_paths[fd], 0, ret, ret < 0 ? e : 0, 0);
+    errno = e;
+    return ret;
+}
+int fstat(int fd, struct stat *st) { return fstat64(fd, (struct stat64 *)st); }
+
+int statx(int dirfd, const char *path, int flags, unsigned int mask, struct statx *stx) {
+    const char *rel = NULL;
+    if (path && path[0] == 0 && (flags & AT_EMPTY_PATH)) { if (is_tracked(dirfd)) rel = g_paths[dirfd]; }
+    else if (dirfd == AT_FDCWD || (path && path[0] == '/')) rel = sandbox_rel(path);
+    if (!rel) return (int)syscall(SYS_statx, dirfd, path, flags, mask, stx);
+    long seq;
+    const char *op = (flags & AT_SYMLINK_NOFOLLOW) ? "lstat" : ((flags & AT_EMPTY_PATH) ? "fstat" : "stat");
+    if (meta_fault(op, rel, &seq)) return -1;
+    int ret = (int)syscall(SYS_statx, dirfd, path, flags, mask, stx);
+    int e = errno;
+    logev(seq, op, -1, rel, 0, ret, ret < 0 ? e : 0, 0);
+    errno = e;
+    return ret;
+}
+
+ssize_t readlink(const char *path, char *buf, size_t len) {
+    const char *rel = sandbox_rel(path);
+    if (!rel) return raw(SYS_readlinkat, AT_FDCWD, (long)path, (long)buf, (long)len);
+    long seq;
+    if (meta_fault("readlink", rel, &seq)) return -1;
+    ssize_t ret = raw(SYS_readlinkat, AT_FDCWD, (long)path, (long)buf, (long)len);
+    int e = errno;
+    logev(seq, "readlink", -1, rel, (long)len, ret, ret < 0 ? e : 0, 0);
+    errno = e;
+    return ret;
+}
+
+char *getcwd(char *buf, size_t size) {
+    if (!g_active) { long r = raw(SYS_getcwd, (long)buf, (long)size, 0, 0); return r < 0 ? NULL : buf; }
+    long seq;
+    if (meta_fault("getcwd", "-", &seq)) return NULL;
+    char *out = buf;
+    if (!out) { if (size == 0) size = PATH_MAX; out = malloc(size); if (!out) { errno = ENOMEM; return NULL; } }
+    long r = raw(SYS_getcwd, (long)out, (long)size, 0, 0);
+    int e = errno;
+    logev(seq, "getcwd", -1, "-", (long)size, r, r < 0 ? e : 0, 0);
+    if (r < 0) { if (!buf) free(out); errno = e; return NULL; }
+    return out;
+}
+
+/* realpath: resolved by libc itself with internal (non-interposable) calls, so it is faulted as a whole */
+char *realpath(const char *path, char *resolved) {
+    static char *(*real_realpath)(const char *, char *) = NULL;
+    if (!real_realpath) real_realpath = (char *(*)(const char *, char *))dlsym(RTLD_NEXT, "realpath");
+    const char *rel = sandbox_rel(path);
+    if (!rel || !real_realpath) return real_realpath ? real_realpath(path, resolved) : NULL;
+    long seq;
+    if (meta_fault("realpath", rel, &seq)) return NULL;
+    char *ret = real_realpath(path, resolved);
+    int e = errno;
+    logev(seq, "realpath", -1, rel, 0, ret ? 0 : -1, ret ? 0 : e, 0);
     errno = e;
     return ret;
 }
